@@ -550,7 +550,7 @@ static nlopt_result nlopt_optimize_(nlopt_opt opt, double *x, double *minf)
     if (n == 0) {               /* trivial case: no degrees of freedom */
         *minf = opt->f(n, x, NULL, opt->f_data);
         opt->numevals = 1;
-        return NLOPT_SUCCESS;
+        return opt->force_stop ? NLOPT_FORCED_STOP : NLOPT_SUCCESS; /* the objective may have called nlopt_force_stop */
     }
 
     *minf = HUGE_VAL;
